@@ -2990,6 +2990,34 @@ fn scan_ws_run(bytes: &[u8], i: usize) -> (usize, bool) {
     (j, j < bytes.len() && is_line_break(bytes[j]))
 }
 
+/// Decode the `\uNNNN` escape whose `u` is at `bytes[i]`, combining a UTF-16
+/// surrogate pair written as two escapes (`\ud83d\ude00`, the only way JSON
+/// text can escape a character beyond U+FFFF) into the one character it
+/// stands for. Returns the character and the number of bytes consumed after
+/// the `u`. A surrogate that is not half of such a pair stays an error.
+fn parse_u_escape(bytes: &[u8], i: usize) -> Result<(char, usize), YamlStringError> {
+    if i + 4 >= bytes.len() {
+        return Err(YamlStringError::InvalidEscape);
+    }
+    let hi = parse_hex(&bytes[i + 1..i + 5])?;
+    if (0xD800..0xDC00).contains(&hi)
+        && bytes.len() >= i + 11
+        && bytes[i + 5] == b'\\'
+        && bytes[i + 6] == b'u'
+    {
+        let lo = parse_hex(&bytes[i + 7..i + 11])?;
+        if (0xDC00..0xE000).contains(&lo) {
+            let cp = 0x10000 + ((hi - 0xD800) << 10) + (lo - 0xDC00);
+            return char::from_u32(cp)
+                .map(|c| (c, 10))
+                .ok_or(YamlStringError::InvalidEscape);
+        }
+    }
+    char::from_u32(hi)
+        .map(|c| (c, 4))
+        .ok_or(YamlStringError::InvalidEscape)
+}
+
 /// Transcode a double-quoted YAML string directly to JSON output.
 /// Avoids intermediate String allocation by decoding YAML escapes and
 /// re-encoding as JSON escapes in a single pass.
@@ -3062,15 +3090,10 @@ fn transcode_double_quoted_to_json(
                         i += 2;
                     }
                     b'u' => {
-                        // \uNNNN - 4 hex digits
-                        if i + 4 >= bytes.len() {
-                            return Err(YamlStringError::InvalidEscape);
-                        }
-                        let hex = &bytes[i + 1..i + 5];
-                        let codepoint = parse_hex(hex)?;
-                        let ch = char::from_u32(codepoint).ok_or(YamlStringError::InvalidEscape)?;
+                        // \uNNNN - 4 hex digits (or a surrogate pair of two)
+                        let (ch, len) = parse_u_escape(bytes, i)?;
                         write_json_escape(output, ch);
-                        i += 4;
+                        i += len;
                     }
                     b'U' => {
                         // \UNNNNNNNN - 8 hex digits
@@ -3798,14 +3821,9 @@ fn stream_transcode_double_quoted_to_json<Out: core::fmt::Write>(
                         i += 2;
                     }
                     b'u' => {
-                        if i + 4 >= bytes.len() {
-                            return Err(YamlStringError::InvalidEscape);
-                        }
-                        let hex = &bytes[i + 1..i + 5];
-                        let codepoint = parse_hex(hex)?;
-                        let ch = char::from_u32(codepoint).ok_or(YamlStringError::InvalidEscape)?;
+                        let (ch, len) = parse_u_escape(bytes, i)?;
                         stream_json_escape(out, ch).map_err(|_| YamlStringError::InvalidUtf8)?;
-                        i += 4;
+                        i += len;
                     }
                     b'U' => {
                         if i + 8 >= bytes.len() {
@@ -5251,15 +5269,10 @@ fn decode_double_quoted(bytes: &[u8]) -> Result<String, YamlStringError> {
                         i += 2;
                     }
                     b'u' => {
-                        // \uNNNN - 4 hex digits
-                        if i + 4 >= bytes.len() {
-                            return Err(YamlStringError::InvalidEscape);
-                        }
-                        let hex = &bytes[i + 1..i + 5];
-                        let codepoint = parse_hex(hex)?;
-                        result
-                            .push(char::from_u32(codepoint).ok_or(YamlStringError::InvalidEscape)?);
-                        i += 4;
+                        // \uNNNN - 4 hex digits (or a surrogate pair of two)
+                        let (ch, len) = parse_u_escape(bytes, i)?;
+                        result.push(ch);
+                        i += len;
                     }
                     b'U' => {
                         // \UNNNNNNNN - 8 hex digits
